@@ -31,9 +31,9 @@ G17A = ("g++", "-O0", "-std=c++17", ["-DFIXEDMATH_ENABLE_SQRT_ABACUS_ALGO"])
 C20 = ("clang++", "-O1", "-std=c++20", [])
 TIERS = {
     # (cell, mode, runs per worker)
-    "quick": [(G20, "serial", 2000), (G20, "fine", 500)],
-    "thorough": [(G20, "serial", 28000), (C17, "serial", 28000), (G17A, "serial", 28000), (C20, "serial", 28000),
-                 (G20, "fine", 9000), (C17, "fine", 9000), (G17A, "fine", 9000)],
+    "quick": [(G20, "serial", 3000), (G20, "fine", 1000)],
+    "thorough": [(G20, "serial", 40000), (C17, "serial", 40000), (G17A, "serial", 40000), (C20, "serial", 40000),
+                 (G20, "fine", 16000), (C17, "fine", 16000), (G17A, "fine", 16000)],
 }
 
 
